@@ -128,7 +128,7 @@ Qed.
 Lemma ua_step_keys : forall cur id, keys (ua_step cur id) = keys cur.
 Proof.
   intros. unfold ua_step.
-  destruct (by_id cur id); auto. destruct (is_alias e && negb (e_dir e)); auto.
+  destruct (by_id cur id); auto. destruct (is_alias e && _); auto.
   apply resolve_keys.
 Qed.
 
@@ -270,12 +270,11 @@ Proof.
   destruct (e_dist j); auto. destruct (n =? e_id d)%N; auto.
 Qed.
 
-Lemma clear_one_pres : forall c deref dels j, e_name (clear_one c deref dels j) = e_name j.
+Lemma clear_one_pres : forall deref dels j, e_name (clear_one deref dels j) = e_name j.
 Proof.
   unfold clear_one. induction dels; simpl; intros; auto.
   rewrite IHdels.
-  destruct (is_constlike a && deref); [|apply clear_derived_pres].
-  destruct (fx_derefclear c); auto. rewrite clear_derived_pres. auto.
+  destruct (is_constlike a && deref); rewrite clear_derived_pres; auto.
 Qed.
 
 Arguments check_all : simpl never.
@@ -296,15 +295,17 @@ Proof.
   clearbody chk. destruct chk as [l1 refused]. simpl in K1.
   destruct refused; [change (Sorted_names (keys l1)); rewrite K1; auto|].
   destruct (del_refs l1 E (s_ref s) (s_fref s)) as [rf' fr'].
-  match goal with |- context[map (clear_one c ?dr ?dl) (s_ents ?s2)] => set (S2 := s2); set (l3 := map (clear_one c dr dl) (s_ents S2)) end.
+  match goal with |- context[map (clear_one ?dr ?dl) (s_ents ?s2)] => set (S2 := s2); set (l3 := map (clear_one dr dl) (s_ents S2)) end.
   assert (E2 : s_ents S2 = l1) by reflexivity.
   assert (K3 : keys l3 = keys (s_ents s)).
   { unfold l3. rewrite keys_map by (intro; apply clear_one_pres). rewrite E2. auto. }
+  assert (FIN : forall l, keys (if fx_delalias c then update_aliases true l else l) = keys l)
+    by (intro l0; destruct (fx_delalias c); auto; apply update_aliases_keys).
   destruct (e_meta E).
   - destruct (by_oid l3 (e_par E)); simpl; auto.
-    unfold SortedS. simpl. apply sorted_remove_id. rewrite keys_upd_id by (intro; reflexivity).
+    unfold SortedS. simpl. rewrite FIN. apply sorted_remove_id. rewrite keys_upd_id by (intro; reflexivity).
     rewrite K3. auto.
-  - unfold SortedS. simpl. apply sorted_remove_id.
+  - unfold SortedS. simpl. rewrite FIN. apply sorted_remove_id.
     eapply sub_sorted; [apply remove_metas_sub|]. rewrite K3. auto.
 Qed.
 
@@ -363,10 +364,10 @@ Definition rename_clean (s : state) (nm new : name) (flags : N) : Prop :=
      else Some new) = Some full ->
     NoDup (keys (renamed_table s E full flags)).
 
-Lemma sorted_ren : forall c s nm new flags, SortedS s -> rename_clean s nm new flags ->
-  SortedS (fst (op_ren c s nm new flags)).
+Lemma sorted_ren : forall s nm new flags, SortedS s -> rename_clean s nm new flags ->
+  SortedS (fst (op_ren s nm new flags)).
 Proof.
-  intros c s nm new flags HS HC. unfold op_ren.
+  intros s nm new flags HS HC. unfold op_ren.
   destruct (find_nd (s_ents s) nm) as [E|] eqn:FE; simpl; auto.
   destruct (e_ty E =? T_INDEX)%N; simpl; auto.
   destruct (negb (valid_code new)); simpl; auto.
